@@ -21,7 +21,6 @@ let dec_list (s : string) : n list list =
 let enc_list (l : n list list) : string = String.concat ";" (List.map enc_str l)
 
 let fields (line : string) : string list = String.split_on_char '\t' line
-let show_cmp = function Eq -> "eq" | Lt -> "lt" | Gt -> "gt"
 let show_bool b = if b then "1" else "0"
 
 let main (handle : string list -> string) =
